@@ -36,6 +36,7 @@ def main():
     if sc.get('ready'):
         os.write(1, sc['ready'].encode('ascii'))
     recorded = bytearray()
+    pos = [0]
 
     def readsome():
         try:
@@ -57,14 +58,20 @@ def main():
         elif op == 's':
             time.sleep(a[1])
         elif op == 'rec':
-            want = len(recorded) + a[1]
-            while len(recorded) < want:
+            # a[1] more bytes beyond what earlier actions have consumed
+            while len(recorded) < pos[0] + a[1]:
                 if not readsome():
                     break
+            pos[0] = min(len(recorded), pos[0] + a[1])
         elif op == 'recuntil':
+            # until the marker has been received (anywhere after what earlier actions consumed: it may
+            # arrive in the same read as later input)
             mark = bytes.fromhex(a[1])
-            start = len(recorded)
-            while len(recorded) - start < len(mark) or bytes(recorded[-len(mark):]) != mark:
+            while True:
+                k = recorded.find(mark, pos[0])
+                if k >= 0:
+                    pos[0] = k + len(mark)
+                    break
                 if not readsome():
                     break
         elif op == 'receof':
